@@ -43,7 +43,7 @@ pub fn run(cfg: &Cfg, col: &mut Collector) {
 fn program(rng: &mut Rng, stack: bool) -> (Program, RefImage) {
     loop {
         let mut items = Vec::new();
-        if rng.bool() {
+        if rng.bool() && !cfg!(miri) {
             items.push(Item::Orig(gen_origin(rng).clamp(0x200, 0xF000)));
         }
         let n = 6 + rng.below(14) as usize;
@@ -254,7 +254,7 @@ fn one_case(seed: u64, i: u64) -> CaseOut {
         let j = rng.below(k as u64 + 1) as usize;
         pcs.swap(k, j);
     }
-    pcs.truncate(12);
+    pcs.truncate(if cfg!(miri) { 2 } else { 12 });
     if rng.bool() {
         pcs.insert(0, orig);
     }
@@ -370,10 +370,7 @@ fn one_case(seed: u64, i: u64) -> CaseOut {
             why = Some(format!("CC {:03b}, expected {:03b}", after.cc, vm.cc));
         }
         if why.is_none() {
-            let mut exp: Vec<(u16, u16)> = (0..0x10000usize)
-                .filter(|&a| vm.mem[a] != sess.init_mem[a])
-                .map(|a| (a as u16, vm.mem[a]))
-                .collect();
+            let mut exp: Vec<(u16, u16)> = crate::dbgmon::diff_mem(&vm.mem, &sess.init_mem);
             let mut got = after.mem_diff.clone();
             if link_mem {
                 let slot = vm.reg[7];
